@@ -50,7 +50,7 @@ fn rank(n: usize) {
         assert!(has_one, "the lowest objective has rank 1");
     }
 }
-/// @verif anchor=reverse_rank bound="population size 2; all objective values incl. ties and +inf"
+/// @verif anchor=reverse_rank tier=thorough bound="population size 2; all objective values incl. ties and +inf"
 #[cfg_attr(kani, kani::proof)] #[cfg_attr(kani, kani::unwind(8))]
 pub fn c11_reverse_rank_2() { rank(2) }
 /// @verif anchor=reverse_rank tier=thorough bound="population size 3"
